@@ -315,6 +315,22 @@ class ASPConverter(Converter[ASPProgram,
             self._operations.append(operation)
         return operations
 
+    def _convert_operation_with_aggregate_values(self, operation, operands, negated):
+        # a literal can hold one aggregate only: name the value of each aggregate, then compare the names
+        operations: list[ASPOperation] = []
+        values = []
+        for operand in operands:
+            if isinstance(operand, ASPAggregate):
+                new_field = ASPValue(self.create_new_field_value(operand.operation.name))
+                operations.append(ASPOperation(Operators.EQUALITY, operand, new_field))
+                values.append(new_field)
+            else:
+                values.append(operand)
+        operations.append(ASPOperation(operation.operation, *values, negated=negated))
+        for operation in operations:
+            self._operations.append(operation)
+        return operations
+
     def _convert_between_operation_without_aggregate(self, operation, operands):
         operation1 = ASPOperation(operation.operation, operands[0], operands[1])
         operation2 = ASPOperation(operation.operation, operands[1], operands[2])
@@ -338,8 +354,10 @@ class ASPConverter(Converter[ASPProgram,
             operands.append(operand.convert(self))
         if is_operation_on_angle:
             return ASPAngleOperation(operation.operation, *operands)
-        if self._is_list_of_aggregates(operands):
+        if self._is_list_of_aggregates(operands) and not negated_between:
             return self._convert_operation_of_list_of_aggregate(operation, operands)
+        if len([operand for operand in operands if isinstance(operand, ASPAggregate)]) > 1:
+            return self._convert_operation_with_aggregate_values(operation, operands, negated_between)
         if not is_arithmetic_operator(operation.operation) and len(operands) == 3 and not negated_between \
                 and not isinstance(operands[1], ASPAggregate) and operation.operation < Operators.CONJUNCTION:
             return self._convert_between_operation_without_aggregate(operation, operands)
